@@ -135,5 +135,10 @@ def pretty(obj: Any) -> str:  # pragma: no cover
                 elif name in ('dsep',):
                     output.append(f'{m.group(1)} ')
                 break
+        else:
+            # Not a known token (e.g. the sign of a negative number, `.` or `|` in regular expression flags):
+            # emit the character as is so that we always make progress.
+            output.append(sel[index])
+            index += 1
 
     return ''.join(output)
